@@ -292,12 +292,6 @@ static void ProcessFile(char const* FileName, LongWord Offset) {
                 }
             }
 
-            if (doit && (ErgStop > MaxAdr)) {
-                errno = 0;
-                fprintf(stderr, " %s\n", getmessage(Num_ErrMsgAdrOverflow));
-                ChkIO(OutName);
-            }
-
             if (doit) {
                 /* an Anfang interessierender Daten */
 
@@ -316,6 +310,16 @@ static void ProcessFile(char const* FileName, LongWord Offset) {
                 /* Auf Zieladressbereich verschieben */
 
                 ErgStart += Relocate;
+
+                /* the address width checks refer to the addresses written,
+                   i.e. after -a and -R have been applied */
+
+                ErgStop = ErgStart + (ErgLen / Gran) - 1;
+                if (ErgStop > MaxAdr) {
+                    errno = 0;
+                    fprintf(stderr, " %s\n", getmessage(Num_ErrMsgAdrOverflow));
+                    ChkIO(OutName);
+                }
 
                 /* Kopf einer Datenzeilengruppe */
 
